@@ -171,10 +171,20 @@ impl World {
     }
 
     pub fn node_at_cfg(&self, tip: usize, who: Key, cfg: Cfg) -> Result<LedgerNode, String> {
+        let browser = cfg.browser;
         let mut n = LedgerNode::new(who, cfg);
         for i in self.path(tip) {
             match n.add_block_bytes(&self.blocks[i].bytes) {
-                Outcome::Done(AddRes::AddedLongest) => {}
+                Outcome::Done(AddRes::AddedLongest) => {
+                    if browser {
+                        // a browser-configured builder does not write block files, yet the
+                        // rebroadcast of an expiring block reads that block from disk: put the
+                        // file where the storage layer would have put it
+                        let d = decode_block(&self.blocks[i].bytes);
+                        let path = n.storage.generate_block_filepath(&d);
+                        n.io.put(&path, self.blocks[i].bytes.clone());
+                    }
+                }
                 o => {
                     return Err(format!(
                         "builder refused block {} ({}): {:?}",
